@@ -171,3 +171,27 @@ Definition s_tv_trace (bitwidth k : Z) (ins : list (Z * Z * Z)) : list (list Z) 
 (* run-length encoded stimulus used by the harness: (load, req, seed, repeat count) *)
 Definition expand (l : list (Z * Z * Z * Z)) : list (Z * Z * Z) :=
   flat_map (fun r => let '(a, b, c, n) := r in repeat (a, b, c) (Z.to_nat n)) l.
+
+(* ---- compact trace summaries for the harness (printing thousands of 256-bit numbers from Coq is
+   very slow): a 320-bit polynomial digest over ALL cycles (odd multiplier, so a difference in any
+   single cycle changes it), the trace length, the first 12 cycles at which `ready` rises with the
+   value of rand there, and the last cycle.  A cycle is encoded as 2*rand + ready. *)
+Definition HM : Z := 0x9E3779B97F4A7C15F39CC0605CEDC8341082276BF3A27251F86C6A11D0C18E95.
+Definition digest (l : list Z) : Z := fold_left (fun h v => low 320 (h * HM + v + 1)) l 0.
+Fixpoint rises (n : nat) (prev idx : Z) (l : list Z) : list (list Z) :=
+  match l with
+  | [] => []
+  | v :: t =>
+      if Z.testbit v 0 && negb (Z.testbit prev 0) then
+        match n with O => [] | S n' => [idx; Z.shiftr v 1] :: rises n' v (idx + 1) t end
+      else rises n v (idx + 1) t
+  end.
+Definition summary (l : list Z) : list (list Z) :=
+  [digest l; Z.of_nat (length l); last l 0] :: rises 12 0 0 l.
+Definition enc_cycle (p : Z * Z) : Z := Z.shiftl (snd p) 1 + fst p.
+Definition s_lfsr_sum (bitwidth : Z) (ins : list (Z * Z * Z)) : list (list Z) :=
+  summary (map (fun r => Z.shiftl r 1) (s_lfsr_run bitwidth 0 ins)).
+Definition s_xo_sum (bitwidth : Z) (ins : list (Z * Z * Z)) : list (list Z) :=
+  summary (map enc_cycle (s_xo_run bitwidth sxo_init ins)).
+Definition s_tv_sum (bitwidth k : Z) (ins : list (Z * Z * Z)) : list (list Z) :=
+  summary (map enc_cycle (s_tv_run bitwidth k stv_init ins)).
